@@ -70,6 +70,7 @@ let runners : (string * (z list -> z list)) list = [
   "buf", run_buf;
   "fnode", run_fnode;
   "mon", run_mon;
+  "deque", run_deque;
   "suspend", run_suspend;
   "once", run_once;
 ]
